@@ -654,4 +654,9 @@ def treeCfg (pool : Option (Nat × Nat)) : Cfg :=
     decEarly := decide (Consts.srvInvokeDecDeferred = 0 ∧ Consts.srvInvokeDecBeforeWrite ≥ 1),
     drainFirstTick := decide (Consts.srvRecvDrainTickFirst ≥ 1) }
 
+/-- What the extractor saw of the drain loop of a connection's deferred close: `numInvoke == 0` is its
+only exit (no bound on the number of ticks, no other break / return). The LTS relies on it: `drainClose`
+has `numInvoke = 0` as its only guard. -/
+def treeDrainUnbounded : Bool := decide (Consts.srvRecvDrainUnbounded ≥ 1)
+
 end Tars.ServerConn
